@@ -97,6 +97,8 @@ func neverBeforeDeep(c *eng.Ctx, root *ssa.Function, first, then eng.Matcher, fn
 
 func runC01(c *eng.Ctx) {
 	decodedRecordOwnsItsStrings(c)
+	storeCleanupBeforeTheStoreIsUsed(c)
+	optionsWrittenInTheRegistrationHold(c)
 	p := c.P
 	replayReinstallsStoreLogs(c)
 
